@@ -36,18 +36,18 @@ EXHAUSTIVE_PART = "per generated history: every (cycle,node), every cumulative n
 TIMEOUT = {"quick": 600, "thorough": 3600}
 FLOORS = {
     "quick": {
-        "trace.compare": 14000, "trace.events": 800000, "arith.node": 130000, "arith.step": 90000, "arith.sum-law": 40000,
-        "history.getters": 14000, "run.restart": 3000, "run.coupled-iterations": 2500, "run.nonconverged-cap": 2500, "run.exempt-cycle": 1200,
-        "run.halt": 2000, "run.deferred": 3500, "run.reverseAtEOL": 4000, "run.bolForce": 5000, "run.zero-step-cycle": 3000,
-        "run.dependencies": 3000, "active.direct": 40000, "excluded.direct": 28000, "node.state": 100000, "arith.visit-order": 14000,
-        "stack.order": 14000, "stack.duplicate": 2500,
+        "trace.compare": 9333, "trace.events": 533333, "arith.node": 86666, "arith.step": 60000, "arith.sum-law": 26666,
+        "history.getters": 9333, "run.restart": 2000, "run.coupled-iterations": 1666, "run.nonconverged-cap": 1666, "run.exempt-cycle": 800,
+        "run.halt": 1333, "run.deferred": 2333, "run.reverseAtEOL": 2666, "run.bolForce": 3333, "run.zero-step-cycle": 2000,
+        "run.dependencies": 2000, "active.direct": 26666, "excluded.direct": 18666, "node.state": 66666, "arith.visit-order": 9333,
+        "stack.order": 9333, "stack.duplicate": 1666,
     },
     "thorough": {
-        "trace.compare": 84000, "trace.events": 4800000, "arith.node": 780000, "arith.step": 540000, "arith.sum-law": 240000,
-        "history.getters": 84000, "run.restart": 18000, "run.coupled-iterations": 15000, "run.nonconverged-cap": 15000, "run.exempt-cycle": 7200,
-        "run.halt": 12000, "run.deferred": 21000, "run.reverseAtEOL": 24000, "run.bolForce": 30000, "run.zero-step-cycle": 18000,
-        "run.dependencies": 18000, "active.direct": 240000, "excluded.direct": 168000, "node.state": 600000, "arith.visit-order": 84000,
-        "stack.order": 84000, "stack.duplicate": 15000,
+        "trace.compare": 140000, "trace.events": 8000000, "arith.node": 1300000, "arith.step": 900000, "arith.sum-law": 400000,
+        "history.getters": 140000, "run.restart": 30000, "run.coupled-iterations": 25000, "run.nonconverged-cap": 25000, "run.exempt-cycle": 12000,
+        "run.halt": 20000, "run.deferred": 35000, "run.reverseAtEOL": 40000, "run.bolForce": 50000, "run.zero-step-cycle": 30000,
+        "run.dependencies": 30000, "active.direct": 400000, "excluded.direct": 280000, "node.state": 1000000, "arith.visit-order": 140000,
+        "stack.order": 140000, "stack.duplicate": 25000,
     },
 }
 ASSUMPTIONS = [
@@ -67,7 +67,7 @@ TRUTHY = [True, 1, "halt", [0], 2.5]
 
 def plan(tier, seed):
     q = tier == "quick"
-    n = 2400 if q else 20000
+    n = 1600 if q else 30000
     kinds = ["mix"] * 7 + ["coupled"] * 3 + ["restart"] * 2 + ["stack"] * 2 + ["arith"] * 2
     return [{"name": "%s-%02d" % (k, i), "kind": k, "n": n if k != "arith" else n // 2} for i, k in enumerate(kinds)]
 
@@ -495,7 +495,7 @@ def make_classes():
             return self.spec["ret"].get("EOL")
 
         def writeDBEveryNode(self):  # only reached on the stub called "database"
-            _CTX["dbwrites"] = _CTX.get("dbwrites", 0) + 1
+            _CTX["dbwrites_total"] = _CTX.get("dbwrites_total", 0) + 1
 
     depClasses = {}
     for d in DEPS:
@@ -548,7 +548,6 @@ class Harness:
         _STATE.clear()
         _CTX["cfg"] = cfg
         _CTX["start"] = tuple(cfg["start"])
-        _CTX["dbwrites"] = 0
         self.apply_settings(cfg["settings"])
         if cfg["fresh"]:
             o = self.RecOperator(self.cs)
@@ -974,4 +973,4 @@ def run_shard(spec, rec):
         check_run(rec, H_, cfg, idx)
         if idx % 500 == 499:
             H_.o.timer.timers.clear()  # armi's master timer keeps a (start, end) pair per hook call for ever: bound the shard's memory
-    rec.note("db-stub-writes(last case)", _CTX.get("dbwrites", 0))
+    rec.add("writeDBEveryNode calls received by the 'database' stub (observed, not judged)", _CTX.get("dbwrites_total", 0))
